@@ -2,7 +2,7 @@
 
 import numpy as np
 
-from ._base import BuilderSystem, run_configs, replay_history
+from ._base import BuilderSystem, run_configs, replay_history, with_bystander
 from ..harness import pt
 from ..common import rf, import_gscrib
 
@@ -13,6 +13,8 @@ AX = ("x", "y", "z")
 
 
 class C01System(BuilderSystem):
+    deep = True
+
     def __init__(self, label, dp, values, tracers=True, cls=None, contexts=True, relabel=None, bounded=False):
         self.label = label
         self.bounded = bounded
@@ -233,6 +235,7 @@ def systems(tier):
             ("builder-dp12", C01System("builder-dp12", 12, (0, 0.123456789012, -2.000000123456), tracers=True), 2, None),
             ("builder-debug-logging", debug(C01System("builder-debug-logging", 5, exact)), 2, None),
             ("builder-passive-hook", hooked(C01System("builder-passive-hook", 5, exact)), 2, None),
+            ("builder-with-bystander", with_bystander(C01System("builder-with-bystander", 5, exact)), 2, None),
             ("builder-precision-changed-at-run-time", precision_changes(C01System("builder-precision-changed-at-run-time", 2, (0, 12.3456, -2.71828), tracers=False), (5, 2, 0)), 4, None),
         ]
     return [
@@ -246,6 +249,7 @@ def systems(tier):
         ("core-dp5", C01System("core-dp5", 5, exact, cls=GCodeCore), 5, None),
         ("builder-debug-logging", debug(C01System("builder-debug-logging", 5, exact)), 3, None),
         ("builder-passive-hook", hooked(C01System("builder-passive-hook", 5, exact)), 3, None),
+        ("builder-with-bystander", with_bystander(C01System("builder-with-bystander", 5, exact)), 3, None),
         ("builder-precision-changed-at-run-time", precision_changes(C01System("builder-precision-changed-at-run-time", 2, (0, 12.3456, -2.71828), tracers=False), (5, 2, 0)), 5, None),
     ]
 
